@@ -13,14 +13,16 @@ ShapesD     == {"dns", "port", "ipv4", "ipv6", "invalid"}
 SpellingsAll == {"lower", "mixed"}
 BodiesAll   == {"none", "obj", "arr", "nonutf8"}
 StylesAll   == {"canon", "reorder", "spaces", "bare", "empties"}
-KeyValsAll  == {"valid", "validfar", "lapsed", "expired", "unknown", "wrongkey"}
+KeyValsAll  == {"valid", "validfar", "expfuture", "lapsed", "expired", "expboth", "unknown", "wrongkey"}
+NKeysAll    == {1, 2}
+KnownsAll   == {"both", "first", "second", "neither"}
 CfgsAll     == {"single", "multi"}
 DestOwnsAll == {"P", "S", "F"}
 
 
 Emit_ == Done =>
     PrintT(ToJson([m |-> req.m, u |-> req.u, os |-> req.os, osp |-> req.osp, ds |-> req.ds, dsp |-> req.dsp, down |-> req.down, body |-> req.body,
-                   style |-> wire.style, cfg |-> rcv.cfg, kv |-> rcv.kv,
+                   style |-> wire.style, cfg |-> rcv.cfg, kv |-> rcv.kv, nk |-> signed.nk, known |-> rcv.known,
                    tampers |-> applied,
                    accept |-> out.accept,
                    rep |-> [m |-> out.m, u |-> out.u, o |-> out.o, d |-> out.d, b |-> out.b]]))
